@@ -136,7 +136,7 @@ func VerifRun_C07() {
 	}
 	for i := range r.decls {
 		d := &r.decls[i]
-		if d.kind != rbLocal || d.reads > 0 || d.name == "_" || d.attr != 0 || d.funcValue {
+		if d.kind != rbLocal || d.reads > 0 || d.name == "_" || d.attr == 1 || d.funcValue { // attr 1 = <close> (documented exemption)
 			continue
 		}
 		class := ""
